@@ -162,16 +162,9 @@ struct String {
     }
 
     inline bool operator==(const Char_T *str) const noexcept {
-        SizeT offset{0};
+        const SizeT len = StringUtils::Count(str);
 
-        if (str != nullptr) {
-            while ((*str != Char_T{0}) && (*str == First()[offset])) {
-                ++str;
-                ++offset;
-            }
-        }
-
-        return ((*str == Char_T{0}) && (Length() == offset));
+        return ((Length() == len) && StringUtils::IsEqual(First(), str, len));
     }
 
     inline bool operator!=(const String &string) const noexcept {
